@@ -123,6 +123,10 @@ class Ctx:
         t_ok = rt != z3.unsat
         f_ok = rf != z3.unsat
         if t_ok and f_ok:
+            if DEBUG_FORKS:
+                import traceback
+                fr = [f for f in traceback.extract_stack() if '/repo/' in f.filename][-1:]
+                self.notes.append('fork: %s @ %s' % (str(cond)[:120], ['%s:%d' % (f.name, f.lineno) for f in fr]))
             self.trail.append((True, True, tag))
             self.pc.append(cond)
             self.solver.add(cond)
@@ -137,6 +141,7 @@ class Ctx:
 
 
 _ctx = None
+DEBUG_FORKS = False
 
 
 def ctx():
